@@ -39,13 +39,14 @@ type httpSim struct {
 	faultAt   int
 	polls     int
 	done      chan struct{}
+	timeoutS  int // time-out of the program under test: silence lasts longer than that
 }
 
 var keyRe = regexp.MustCompile(`key=[^&]*&`)
 var passRe = regexp.MustCompile(`password=[^&]*`)
 
-func newHTTPSim(backend string, sc *HTTPScen, pos int, kind string) *httpSim {
-	h := &httpSim{backend: backend, sc: sc, faultPos: pos, faultKind: kind, faultAt: -1, done: make(chan struct{})}
+func newHTTPSim(backend string, sc *HTTPScen, pos int, kind string, timeoutS int) *httpSim {
+	h := &httpSim{backend: backend, sc: sc, faultPos: pos, faultKind: kind, faultAt: -1, done: make(chan struct{}), timeoutS: timeoutS}
 	h.srv = httptest.NewTLSServer(http.HandlerFunc(h.handle))
 	return h
 }
@@ -77,10 +78,27 @@ func (h *httpSim) handle(w http.ResponseWriter, r *http.Request) {
 		h.polls++ // every poll counts, answered or not
 	}
 	fault := idx == h.faultPos
+	kind := h.faultKind
+	var normal *httptest.ResponseRecorder
+	if fault && kind == "stall_body" {
+		// what a conforming device would answer: status line, headers and the first half of the
+		// body are sent, then the device goes silent with the connection open.  A reply without
+		// body has no inside to stall in: no fault then.
+		normal = httptest.NewRecorder()
+		h.mu.Unlock()
+		if h.backend == "PAN-OS" {
+			h.panos(normal, r, q)
+		} else {
+			h.nsx(normal, r)
+		}
+		h.mu.Lock()
+		if normal.Body.Len() == 0 {
+			fault = false
+		}
+	}
 	if fault {
 		h.faultAt = idx
 	}
-	kind := h.faultKind
 	h.mu.Unlock()
 
 	if fault {
@@ -109,9 +127,29 @@ func (h *httpSim) handle(w http.ResponseWriter, r *http.Request) {
 				}
 			}
 			return
+		case "status_nobody":
+			// an error status and nothing else (a proxy or an overloaded management plane)
+			w.WriteHeader([]int{500, 403, 503}[idx%3])
+			return
+		case "stall_body":
+			for k, v := range normal.Header() {
+				w.Header()[k] = v
+			}
+			w.WriteHeader(normal.Code)
+			b := normal.Body.Bytes()
+			w.Write(b[:(len(b)+1)/2])
+			if f, ok := w.(http.Flusher); ok {
+				f.Flush()
+			}
+			select {
+			case <-time.After(time.Duration(h.timeoutS)*time.Second + 60*time.Second):
+			case <-h.done:
+			case <-r.Context().Done():
+			}
+			panic(http.ErrAbortHandler) // never complete the body
 		case "silence":
 			select {
-			case <-time.After(1600 * time.Millisecond):
+			case <-time.After(time.Duration(h.timeoutS)*time.Second + 600*time.Millisecond):
 			case <-h.done:
 			case <-r.Context().Done():
 			}
